@@ -82,9 +82,20 @@ def run_runner_case(case: dict[str, Any]) -> dict[str, Any]:
         regs = comp["regs"]
         half = len(regs) // 2 if ending.get("mid") else len(regs)
 
-        def register(rs: list[dict[str, Any]]) -> None:
+        async def register(rs: list[dict[str, Any]]) -> None:
             for r in rs:
-                if r.get("via") == "res":
+                if r.get("via") == "ctxtd":
+                    # registered through @context_teardown from inside the component's start(): the part after the
+                    # yield is the callback, and it is given the exception that ended the application (or None)
+                    from asphalt.core import context_teardown
+
+                    @context_teardown
+                    async def resource_scope(_r: dict[str, Any] = r) -> Any:
+                        exc = yield
+                        make_cb({**_r, "async": False})(exc)
+
+                    await resource_scope()
+                elif r.get("via") == "res":
                     # handed over with a resource of two types: still one callback
                     from asphalt.core import add_resource
 
@@ -94,7 +105,7 @@ def run_runner_case(case: dict[str, Any]) -> dict[str, Any]:
                     add_teardown_callback(make_cb(r), r["pass"])
                 log.append(["reg", r["id"], r["pass"]])
 
-        register(regs[:half])
+        await register(regs[:half])
         for _ in range(comp.get("svc", 0)):
             await start_service_task(idle_service, "idle")
         if idx == at:
@@ -117,7 +128,7 @@ def run_runner_case(case: dict[str, Any]) -> dict[str, Any]:
                 await start_service_task(crash_service, "crasher")
         if comp.get("tick"):
             await anyio.sleep(comp["tick"] * TICK)
-        register(regs[half:])
+        await register(regs[half:])
 
     classes: list[type] = []
     n = len(case["comps"])
